@@ -45,6 +45,9 @@ CLAIMED = {
  'C04': dict(
   text="Coq theorems over SEval's combinators for bodies of ANY shape: for clauses that are state-transparent (one status in every state, state handed back unchanged) permuting the lines of a rule/block/filter body, permuting the alternatives of an or-line and repeating a line leave the status unchanged; the status combinators are permutation- and duplication-invariant for status lists of any length; the definitions found for a rule name do not depend on where other rules are written; the file status is a permutation-invariant fold; a cached rule status is exactly what every later reference receives. PARTIAL: the hypothesis `transparent` is not discharged for memoised variables and cached rule statuses (that is the SEval->PEval bridge of DESIGN.md 2.3, not finished). That part - the history dimension of the property - is carried by the monitor: every generated capture-free, acyclic program (forward references, shared variables, references to already evaluated rules on purpose) is evaluated by the implementation under every permutation (exhaustive up to 4 items, sampled beyond) of lines, alternatives and rules, with a repeated line and with a rule duplicated under a new name, and all rule and file statuses must agree unless an ordering errs. Tie: SEval vs implementation (status, error kind, record tree) on the same programs.",
   note="tie = hook eval_dump + python glue; programs with key captures are excluded (captures append to the root memo: recorded deviation)."),
+ 'C15': dict(
+  text="Coq theorems over SEval's variable resolution: a variable bound to a literal resolves to exactly that literal in every state and leaves the state alone; the bare query %v returns what the variable resolves to, unchanged and in order (so a right-hand side %v and the literal itself are the same value list); a memoised variable is returned as stored - every reference sees the same value; an unused definition changes no lookup of any other name (an equality of computations, so it holds also when evaluating it would be an error: laziness); inner definitions shadow outer ones; an outer variable is looked up and evaluated in the scope that defines it; value scopes define nothing; inside f(args) a parameter is exactly the value list its argument evaluated to. PARTIAL: that memoisation is invisible in the verdicts of whole programs (the SEval->PEval bridge) is not proved; it is carried by the monitor: on the implementation every generated program is compared with its abstracted forms - right-hand literal/query bound to %v at block, rule and file level, left-hand query bound to a variable (except the documented emptiness test), unused variables (also erroring ones) added at every level, literal variables inlined, parameterised calls replaced by their body. Tie: SEval vs implementation on the same programs (status, error kind, record tree).",
+  note="tie = hook eval_dump + python glue."),
 }
 
 NOT_CLAIMED = {}
